@@ -90,5 +90,12 @@ def tuple_subscript(x: fp.Real, y: fp.Real):
         u = (t, x)
     return (t[0], t[1], u[0][1], u[1])
 
-ALL = [tuple_subscript, dyn_ctx_positional, dyn_ctx_keyword, dyn_ctx_ieee, dyn_ctx_fixed, inplace_scan_enumerate, inplace_scan_zip,
+@fp.fpy
+def minmax_zero_ties(v: fp.Real, a: fp.Real):
+    with fp.FP64:
+        z = a * 0.0
+        r = (max(v, 0.0), min(0.0, v), max(v, z), min(z, v), max(0.0, v, z), min(v, -z, 0.0))
+    return r
+
+ALL = [tuple_subscript, minmax_zero_ties, dyn_ctx_positional, dyn_ctx_keyword, dyn_ctx_ieee, dyn_ctx_fixed, inplace_scan_enumerate, inplace_scan_zip,
        zip_mutating_callee, neg_abs_narrow_range, sum_unrounded_first, early_return_in_with]
